@@ -8,14 +8,14 @@ use nextest_runner::{
     config::MaxFail,
     list::{RustTestSuite, RustTestSuiteStatus, TestInstance},
     reporter::events::{
-        verif_events::{self, VerifAttempt},
+        verif_run_stats::{self as verif_events, VerifAttempt},
         AbortStatus, CancelReason, ExecutionResult, FinalRunStats, RunStats, RunStatsFailureKind,
     },
     runner::verif_dispatcher::{
-        VerifEmitted, VerifHandshake, VerifInput, VerifResponse, VerifShutdown, VerifState,
-        VerifStepper,
+        VerifEmitted, VerifHandshake, VerifInput, VerifRequest, VerifResponse, VerifShutdown,
+        VerifState, VerifStepper,
     },
-    runner::verif_dispatcher_loop::{self, VerifRequest},
+    runner::verif_dispatcher_loop,
 };
 use serde_json::{json, Value};
 use std::{
@@ -365,6 +365,26 @@ fn response_json(r: VerifResponse) -> Value {
     }
 }
 
+fn request_name(r: &VerifRequest) -> String {
+    match r {
+        VerifRequest::OtherCancel => "other_cancel".to_owned(),
+        VerifRequest::ShutdownOnce(s) => format!("shutdown_once:{}", shutdown_name(*s)),
+        VerifRequest::ShutdownTwice => "shutdown_twice".to_owned(),
+        VerifRequest::Stop => "stop".to_owned(),
+        VerifRequest::Continue => "continue".to_owned(),
+        VerifRequest::GetInfo => "get_info".to_owned(),
+    }
+}
+
+/// [[test index or null (setup script), [request names]], ...]
+fn received_json(r: &[(Option<usize>, Vec<VerifRequest>)]) -> Value {
+    Value::Array(
+        r.iter()
+            .map(|(key, reqs)| json!([key, reqs.iter().map(request_name).collect::<Vec<_>>()]))
+            .collect(),
+    )
+}
+
 fn state_json(s: &VerifState) -> Value {
     json!({"stats": stats_json(&s.run_stats), "cancel": opt_reason_json(s.cancel_state),
            "running": s.running, "scripts_running": s.setup_scripts_running,
@@ -418,6 +438,7 @@ pub fn run(case: &Value) -> Value {
                         "resp": response_json(step.response),
                         "state": state_json(&step.state),
                         "emitted": step.emitted.iter().map(emitted_json).collect::<Vec<_>>(),
+                        "received": received_json(&step.received),
                     })),
                     Err(e) => {
                         let msg = e
@@ -462,14 +483,7 @@ pub fn run(case: &Value) -> Value {
                 Ok(steps) => json!({ "steps": steps.iter().map(|st| json!({
                     "hs": handshake_name(st.handshake),
                     "emitted": st.emitted.iter().map(emitted_json).collect::<Vec<_>>(),
-                    "received": st.received.iter().map(|v| v.iter().map(|r| match r {
-                        VerifRequest::OtherCancel => "other_cancel".to_owned(),
-                        VerifRequest::ShutdownOnce(s) => format!("shutdown_once:{}", shutdown_name(*s)),
-                        VerifRequest::ShutdownTwice => "shutdown_twice".to_owned(),
-                        VerifRequest::Stop => "stop".to_owned(),
-                        VerifRequest::Continue => "continue".to_owned(),
-                        VerifRequest::GetInfo => "get_info".to_owned(),
-                    }).collect::<Vec<_>>()).collect::<Vec<_>>(),
+                    "received": received_json(&st.received),
                     "loop_finished": st.loop_finished,
                 })).collect::<Vec<_>>() }),
             }
